@@ -480,6 +480,8 @@ pub struct World {
     pub reader_paid_slot: (usize, u32),
     pub inflight_cache_uids: Vec<u32>,
     pub inflight_acc: Vec<(u32, usize)>,
+    /// Per simulated thread: the k-th projection call from now panics (0 = disarmed).
+    pub proj_panic: Vec<u32>,
     pub prog_wants_access: bool,
     pub prog_readonly_churn: bool,
     pub gen_set: Vec<bool>,
